@@ -7,12 +7,18 @@
    rest), Einsum i is found under its declared name holding its own meaning on the prefix's
    results, earlier results stay, and the prefix matters to Einsum i only through the tensors
    i reads (any two histories agreeing on those give the same result).
+   The monotone temporary counter (Model/TmpCounter.v, tied to TransUtils by T-eq): every
+   next_tmp of one translation returns a new name, names of a later Einsum never collide with
+   the prefix's, and an Einsum's requests inside a cascade are its stand-alone requests
+   renumbered by a constant ("up to the numbering of temporaries").
    NOT a theorem (hence _partial): that whole emitted cascades compute the chained
    Einsums, and text equality with stand-alone compilation; those are the executable ties of
    tools/props/c05.py. *)
 From Coq Require Import String List.
 Require Import TV.Model.TensorSM TV.Proofs.TensorSMProofs TV.Model.Einsum TV.Proofs.EinsumCompose.
+Require Import TV.Model.TmpCounter TV.Proofs.TmpCounterProofs.
 Import ListNotations.
+Open Scope list_scope.
 
 Theorem C05_reset_restores_partial : forall name ranks ops, treset (trun (tinit name ranks) ops) = tinit name ranks.
 Proof. exact reset_restores. Qed.
@@ -46,3 +52,22 @@ Theorem C05_prefix_matters_through_reads_only : forall es es' e ts ts' sc,
              tlookup n (denote_all es ts sc) = tlookup n (denote_all es' ts' sc)) ->
   tlookup (e_out e) (denote_all (es ++ [e]) ts sc) = tlookup (e_out e) (denote_all (es' ++ [e]) ts' sc).
 Proof. exact cascade_step_depends_on_reads. Qed.
+
+Theorem C05_tmp_next_always_new : forall n ops, NoDup (issued (tmp_run n ops)).
+Proof. exact issued_NoDup. Qed.
+
+Theorem C05_tmp_issued_in_sequence : forall ops n, issued (tmp_run n ops) = seq n (nexts ops).
+Proof. exact issued_seq. Qed.
+
+Theorem C05_tmp_cascade_disjoint : forall n ops1 ops2 k,
+  In k (issued (tmp_run n ops1)) -> In k (issued (tmp_run (tmp_final n ops1) ops2)) -> False.
+Proof. exact cascade_tmps_disjoint. Qed.
+
+Theorem C05_tmp_cascade_is_renumbering : forall ops1 ops2,
+  tmp_ok (tmp_run 0 ops2) = true ->
+  tmp_run 0 (ops1 ++ ops2) = tmp_run 0 ops1 ++ map (shift (nexts ops1)) (tmp_run 0 ops2).
+Proof. exact cascade_is_renumbering. Qed.
+
+Theorem C05_tmp_curr_is_last_issued : forall n ops,
+  snd (tmp_step (tmp_final n (ops ++ [TNext])) TCurr) = Some (n + nexts ops).
+Proof. exact curr_is_last_issued. Qed.
